@@ -325,3 +325,37 @@ func shellCheck(sh shellSpec, dir string, words []string, want [][]string) (int,
 	}
 	return -1, nil, nil
 }
+
+// tempShellDir creates a scratch working directory for the real shells.
+func tempShellDir() (string, func(), error) {
+	base := os.Getenv("VK_OUT")
+	if base == "" {
+		base = os.TempDir()
+	}
+	dir, err := os.MkdirTemp(base, "shellwork-")
+	if err != nil {
+		return "", nil, err
+	}
+	if err := shellDir(dir); err != nil {
+		return "", nil, err
+	}
+	return dir, func() { os.RemoveAll(dir) }, nil
+}
+
+// shellSelfTest verifies that the real-shell oracle is alive and sensitive
+// before it is trusted: an unquoted glob must expand against the scratch
+// files, a quoted blank must not split, and a wrong expectation must be
+// reported as a discrepancy.
+func shellSelfTest(sh shellSpec, dir string) error {
+	got, err := shellEval(sh, dir, []string{"*", "'a b'", "a\\ b \"$HOME\"", "~"})
+	if err != nil {
+		return err
+	}
+	if len(got) != 4 || len(got[0]) != 5 || !sameFields(got[1], []string{"a b"}) || !sameFields(got[2], []string{"a b", "/TILDE"}) || !sameFields(got[3], []string{"/TILDE"}) {
+		return fmt.Errorf("%s does not behave as expected in the scratch directory: %q", sh.name, got)
+	}
+	if bad, _, err := shellCheck(sh, dir, []string{"a", "*"}, [][]string{{"a"}, {"*"}}); err != nil || bad != 1 {
+		return fmt.Errorf("%s: a bare glob was not reported as a discrepancy (bad=%d, err=%v)", sh.name, bad, err)
+	}
+	return nil
+}
